@@ -105,7 +105,7 @@ def conds_streamHTTP_readMsg : List String := [
    "return s.recvCount, nil, io.EOF",
    "if s.method.desc.IsStreamingClient()",
    "if !ok",
-   "return count, nil, fmt.Errorf(\"codec %q does not support streaming\", codec.Name())",
+   "return count, nil, fmt.Errorf(\"codec %q does not support streaming\", c.Name())",
    "if err == io.EOF",
    "switch",
    "case n > 0",
